@@ -15,6 +15,9 @@ CHECKS = {
  "C07": dict(
    text="Theorems C07_read_unsigned/_negative/_integer/_bool/_string_definite/_string_chunked/_container_start_definite/_indefinite/_read_break/_skip over an independent inductive RFC 8949 grammar (every head width incl. non-preferred, chunked strings, nested definite/indefinite arrays and maps, tags with content, simple values, floats): for every well-formed encoding x and every continuation rest, the read operation on ser x ++ rest returns the RFC value and leaves exactly rest; skip_item by nested induction over the grammar with a fuel bound equal to the encoding length. C07_any_position: position independence w.r.t. the window for any buffer size. Tie: correspondence with grammar-driven items at offsets 65535k-16..+2 and straddling, istringstream and ifstream, nesting depth to 30000 (2*10^6 thorough) under a 1 MiB stack.",
    ref="DESIGN.md 3.7", note="Negative integers below -2^63 (not representable in the int64 return type) are outside the theorems; see C08/F15."),
+ "C09": dict(
+   text="Theorems C09_roundtrip / C09_roundtrip_any / C09_roundtrip_phys / C09_descriptors_ok: the structures are data (descriptors in coq/Schema.v interpreted by one generic writer and one generic reader that follow the shape of every X::write / X::read); proved once, by mutual induction over descriptors, for EVERY descriptor with pairwise distinct keys and EVERY well-typed value: what write produces (through the real encoder model: staging buffer, flushes; C06) is the serialisation of one well-formed tree, its return value is the byte count, and read returns the value member for member (absent stays absent, present-but-empty stays present, vectors in order), leaving following bytes untouched, at any position relative to the decoder window. Instantiated on FilePreamble/BlockParameters/StorageParameters/StorageHints/CollectionParameters (side conditions by vm_compute). Tie: correspondence - random preambles written and read back by the real classes and by the extracted model (bytes, return values, decoded members compared exactly) + independent Python encoder/interpreter as oracle.",
+   ref="DESIGN.md 3.9", note="The descriptors are hand-written from the C++ (trusted, validated by the correspondence run on every check)."),
  "C17": dict(
    text="Theorems C17_offset_exact / C17_add_inverse / C17_compare_lt / C17_compare_le / C17_refuse / C17_rate0 / C17_no_ub / C17_block / C17_block_offsets over a model of Timestamp in Z with the code's int64 arithmetic made explicit (an overflowing signed operation is the distinguished outcome TUB): for every tick rate 1..10^9, all instants below 2^63 ticks and all int64 offsets (INT64_MIN included). C17_block is an invariant by induction over every add history of a block (timed/untimed records in any order). Tie: correspondence (same commands through the real Timestamp / CdnsBlock classes under UBSan and through the extracted model) + Python big-integer oracle.",
    ref="DESIGN.md 3.17", note="Hypothesis of the theorems: ticks_per_second <= 10^9 and instants < 2^63 ticks (the 'representable range' of the property)."),
